@@ -1,4 +1,5 @@
 import RedactVerif.Model.Format
+import RedactVerif.Props.TransFormat
 /-
 C14 — format forwarding reproduces the active directive exactly.
 
@@ -270,5 +271,17 @@ example : VerbOk 120 ∧ (∀ w, (some 12 : Option Nat) = some w → 1 ≤ w ∧
   constructor
   · unfold VerbOk; omega
   · intro w h; cases h; omega
+
+/-- **C14 on the function as translated from the source**: the round trip holds of
+`Trans.MakeFormat` — what /verif/extract reads off `internal/fmtforward/make_format.go` on every
+run — because that function is the model's (`makeFormat_translated`, Props/TransFormat.lean). -/
+theorem translated_makeFormat_roundtrip (rule : Bool) (s : FState)
+    (hv : VerbOk s.verb)
+    (hw : ∀ w, s.wid = some w → 1 ≤ w ∧ w ≤ 10000009)
+    (hp : ∀ p, s.prec = some p → p ≤ 10000009)
+    (hz : rule = true → ¬ (s.minus = true ∧ s.zero = true)) :
+    parseDirective rule (Trans.MakeFormat (stateOf s) (s.verb : Int)).2 = some s := by
+  rw [makeFormat_translated]
+  exact makeFormat_roundtrip_partial rule s hv hw hp hz
 
 end Redact
